@@ -139,7 +139,11 @@ class Registry:
             # one the caller names in `use_contracts`; otherwise the caller executes the callee's REAL code (inlining is
             # always sound).  Any single contract is sound at a call site (its pre is an obligation there).
             g = self.group_of(cur)
+            # (a contract the caller NAMES takes precedence over the catch-all one of a base group / module: of the named
+            # facets the first verified one is used, see below)
             same = ([c for c in fs if c.module == cur.module] or [c for c in fs if self.group_of(c) == g]
+                    or [c for c in fs if c.target in cur.attrs.get('use_contracts', ())
+                        and not (self.group_of(c) in self.BASE_GROUPS or c.module in self.BASE_MODULES)]
                     or [c for c in fs if self.group_of(c) in self.BASE_GROUPS or c.module in self.BASE_MODULES]
                     or [c for c in fs if c.target in cur.attrs.get('use_contracts', ())])
             if not same:
